@@ -627,6 +627,12 @@ def builtin_call(engine, st, name, node):
                 r = r + engine.num(p)
             return V(Int, [r])
         raise Unsupported("sum of general iterable")
+    if name in ("chr", "ord"):
+        # characters are modelled by their code points
+        x = engine.eval(st, node.args[0])
+        if isinstance(x, PyConst) and isinstance(x.val, str) and name == "ord":
+            return Ty.mk_int(ord(x.val))
+        return V(Key if name == "chr" else Int, [engine.num(x) if name == "chr" else x.term])
     if name == "print":
         return Ty.mk_none()
     if name == "hash":
